@@ -1,6 +1,7 @@
 import Octo.Drv.Codec
 import Octo.Spec.Kleene
 import Octo.Model.LogicTypecheck
+import Octo.Model.LogicMaybe
 /-! C11 driver: model outputs and the property oracle (judge) for the line protocol (see harness/c11.go). -/
 namespace Octo.Drv.C11
 open Octo Octo.Codec Octo.Logic
@@ -344,10 +345,77 @@ def judgeCmp (toks : List String) (out : List String) : String :=
         | _, _ => "n"
       if result == want then "ok" else s!"bad comparison expected={want} got={result}"
 
+/-- the functions that handle NULL themselves (everything else is expected to be strict) -/
+def exemptFromStrict (name : List Nat) : Bool :=
+  name == nmIsNull || name == nmIsNotNull || name == nmString || name == nmPanic
+
+/-! ### the Maybe pass (`lcall`) -/
+
+def parseFTy (s : String) : FTy := (s.splitOn ",").map String.toNat!
+
+/-- a body the model does not have: the outcome is the token `body` -/
+def bodyToken : List Value → Res := fun _ => .err { path := [], tag := "body".toUTF8.toList }
+
+def bodyOrToken (name : List Nat) : List Value → Res :=
+  if name == nmNot || name == nmIsNull || name == nmIsNotNull || name == nmLt || name == nmLe || name == nmEq ||
+     name == nmNe || name == nmGe || name == nmGt || name == nmPanic then bodyOf name else bodyToken
+
+partial def encodeArg : PExpr → String
+  | .var ty i => s!"V {encodeTy ty} {i}"
+  | .assert ty target e => s!"T {encodeTy ty} {encodeTy target} {encodeArg e}"
+  | _ => "?"
+
+structure CallLine where
+  name : List Nat
+  tys : List FTy
+  vals : List Value
+
+partial def parseCallLine (toks : List String) : Option CallLine :=
+  match toks with
+  | nm :: k :: rest =>
+    let rec go : Nat → List String → Option (List FTy × List Value)
+      | 0, _ => some ([], [])
+      | n + 1, ids :: r => do
+        let (v, r) ← parseValue r
+        let (ts, vs) ← go n r
+        pure (parseFTy ids :: ts, v :: vs)
+      | _, [] => none
+    (go k.toNat! rest).map fun (ts, vs) => { name := parseName nm, tys := ts, vals := vs }
+  | _ => none
+
+def modelCall (toks : List String) : String :=
+  match parseCallLine toks with
+  | none => "bad-op"
+  | some c =>
+    match typecheckCall c.name c.tys with
+    | none => "typecheck-panic"
+    | some (d, args) =>
+      let desc : Desc := { strict := d.strict, fn := bodyOrToken c.name }
+      let r := eval [c.vals] (materialize [List.range c.tys.length] (.call .any desc args))
+      let out := match r with
+        | .err e => if e.tag == "body".toUTF8.toList && e.path == [.fnBody] then "body" else errStr e
+        | r => resStr r
+      String.intercalate " " (s!"D{d.idx}" :: args.map encodeArg) ++ " | " ++ out
+
+/-- oracle: a function that is not one of the NULL handlers, applied to columns one of which holds NULL, is NULL —
+    whatever else the column's static type admits; never an error -/
+def judgeCall (toks : List String) (out : List String) : String :=
+  match parseCallLine toks with
+  | none => "ok"
+  | some c =>
+    if out == ["typecheck-panic"] then "ok"
+    else
+      let result := String.intercalate " " ((out.dropWhile (· != "|")).drop 1)
+      let wellTyped := (c.tys.zip c.vals).all fun (s, v) => s.contains v.rank
+      if wellTyped && !exemptFromStrict c.name && c.vals.any isNull then
+        if result == "n" then "ok" else s!"bad null-propagation-through-maybe-pass expected=n got={result}"
+      else "ok"
+
 def model (toks : List String) : String :=
   match toks with
   | "ltreeall" :: rest => modelLogical rest
   | "lcmp" :: rest => modelCmp rest
+  | "lcall" :: rest => modelCall rest
   | "treeall" :: k :: tree =>
     let k := k.toNat!
     match parseTree tree with
@@ -394,8 +462,6 @@ def expected (names : List Nat) (vals : List Value) (tree : List String) : Optio
   if !(t.bound names && t.ok ρ) then none
   pure (semStr (t.den ρ))
 
-def exemptFromStrict (name : List Nat) : Bool :=
-  name == nmIsNull || name == nmIsNotNull || name == nmString || name == nmPanic
 
 /-- spec of a `strict` line: `some s` = the output must be `s` -/
 partial def strictExpected (toks : List String) : Option String :=
@@ -447,6 +513,7 @@ def judge (toks : List String) (out : List String) : String :=
   match toks with
   | "ltreeall" :: rest => judgeLogical rest out
   | "lcmp" :: rest => judgeCmp rest out
+  | "lcall" :: rest => judgeCall rest out
   | "treeall" :: k :: tree =>
     let k := k.toNat!
     let names := List.range k
